@@ -247,6 +247,58 @@ def bufOK (it : Item) : Buf → Bool
 def itemOK (it : Item) : Bool := it.bufs.all (bufOK it)
 
 
+/-! ## explicit declaration lists and user overrides
+
+`buf_args: [arg_decl]` makes both builders read explicit lists from the statement block: `Wrapc.build_proto_list` appends one
+parameter per `c_arg_decl` element, `Wrapf.build_arg_list_interface` appends ONE dummy name (`F_C_var`) and one declaration per
+`f_arg_decl` element.  The block is the entry of the statement table, or - for the function result - that entry updated by the
+user's `fstatements: {c | c_buf | c_cfi: {...}}` (`statements.lookup_local_stmts`, mode update; both builders look the same key
+up).  `options: {C_prototype: ..., F_C_arguments: ...}` replace the whole C parameter list / the whole dummy NAME list. -/
+
+/-- the variable a declaration template names: `{c_var}`, `{cxx_var}`, or something else (a literal, another field) -/
+inductive NameT
+  | cVar | cxxVar | other
+  deriving DecidableEq, Repr
+
+/-- the name a template expands to; `lit` stands for anything that is not one of the two fields -/
+def NameT.expand (cvar cxxvar lit : Nat) : NameT → Nat
+  | .cVar => cvar | .cxxVar => cxxvar | .other => lit
+
+/-- **lists of equal length, pairwise interoperable declarations, same names in the same order**: the i-th C declaration names the
+    wrapper's variable, the i-th Fortran declaration declares `{c_var}` (formatted with `c_var=F_C_var`, the dummy name appended) -/
+def declListsOK (a : Arg) (c : List CDeclT) (f : List FDeclT) (cn fn : List NameT) : Bool :=
+  all2 interop (c.map (cdeclOf a)) (f.map (fdeclOf a))
+  && cn.length == c.length && fn.length == f.length
+  && all2 (fun x y => x != .other && y == .cVar) cn fn
+
+/-- a user `fstatements` block (mode update): a field that is given replaces the entry's -/
+structure UserBlk where
+  bufs : Option (List Buf)
+  cdecl : Option (List CDeclT)
+  fdecl : Option (List FDeclT)
+  deriving Repr
+
+/-- `blk.reparent(parent)`: lookups fall through to the entry for fields the user did not give -/
+def applyUser (it : Item) (u : UserBlk) : Item :=
+  ⟨it.a, u.bufs.getD it.bufs, u.cdecl.getD it.cdecl, u.fdecl.getD it.fdecl⟩
+
+/-- `options.get("C_prototype", generated)` / `options.get("F_C_arguments", generated)` -/
+def overrideList (user : Option (List α)) (generated : List α) : List α := user.getD generated
+
+/-- the C parameter list and the interface with the whole-list overrides: the interface's DECLARATIONS stay the generated ones,
+    only the dummy-name list in the subroutine/function statement is replaced -/
+def protoFinal (uP : Option (List ParamC)) (this : Bool) (items : List Item) : List ParamC :=
+  overrideList uP (protoList this items)
+
+/-- dummy names of the statement versus names the declarations declare (ids; generated: the same list) -/
+def namesFinal (uN : Option (List Nat)) (declared : List Nat) : List Nat := overrideList uN declared
+
+/-- the admissible overrides: the user's parameter list is pairwise interoperable with the generated dummies, the user's
+    dummy-name list is the list of declared names in the same order (Shroud checks neither) -/
+def overrideOK (uP : Option (List ParamC)) (uN : Option (List Nat)) (this : Bool) (items : List Item) (declared : List Nat) : Bool :=
+  (match uP with | none => true | some ps => all2 interop ps (ifaceList this items))
+  && (match uN with | none => true | some ns => ns == declared)
+
 /-! ## callbacks: the abstract interface of a function-pointer argument (`Wrapf.dump_abstract_interfaces`)
     against the parameter list `gen_arg_as_c` prints inside the C function-pointer type -/
 
@@ -482,6 +534,9 @@ def decFT (t : Nat × Nat × Nat × Nat × Nat) : Option FDeclT :=
   | 1 => (decF t.2).map .fixed
   | 2 => (decFBase t.2.1 t.2.2.1).map (fun b => .fixedDim b (t.2.2.2.1 == 1))
   | _ => none
+
+def decNameT : Nat → NameT
+  | 1 => .cVar | 2 => .cxxVar | _ => .other
 
 def allSome : List (Option α) → Option (List α)
   | [] => some []
